@@ -55,6 +55,13 @@ Proof.
   destruct (j_tasks j') as [|a l], (j_tasks j) as [|b l']; simpl in *; try done.
 Qed.
 
+Ltac absjob :=
+  unfold abs_job; simpl; f_equal;
+  try done;
+  try (apply graph_ok_ext; [done|simpl; rewrite ?map_map; simpl; done]);
+  try (f_equal; unfold job_graph; simpl; rewrite ?map_map; simpl; done);
+  try (by rewrite ?orb_true_r, ?orb_false_r).
+
 Lemma abs_try_start s id :
   (abs (try_start s id).1, (try_start s id).2) = r_try_start (abs s) id.
 Proof.
@@ -63,9 +70,9 @@ Proof.
   destruct (j_canceled j) eqn:Hc; [done|].
   destruct (graph_ok j) eqn:Hg; simpl.
   - rewrite abs_log. f_equal. erewrite abs_upd; [done|].
-    intros j0. unfold abs_job, r_started. simpl. f_equal; by apply graph_ok_ext.
+    intros j0. unfold r_started. absjob.
   - rewrite abs_log. f_equal. erewrite abs_upd; [done|].
-    intros j0. unfold abs_job, r_failed. simpl. f_equal; by apply graph_ok_ext.
+    intros j0. unfold r_failed. absjob.
 Qed.
 
 Lemma abs_dequeue_loop fuel s p : abs (dequeue_loop fuel s p) = r_dequeue_loop fuel (abs s) p.
@@ -100,7 +107,8 @@ Proof. unfold abs, set_jobs, r_set_jobs. simpl. by rewrite map_app. Qed.
 
 Lemma abs_schedule s p v u :
   (abs (do_schedule s p v u).1, (do_schedule s p v u).2)
-  = r_schedule (abs s) p (graph_ok (new_job s p (default zero_def (lookup_def (st_defs s) p)) v u)).
+  = r_schedule (abs s) p (graph_ok (new_job s p (default zero_def (lookup_def (st_defs s) p)) v u))
+               (r_snap (abs_job (new_job s p (default zero_def (lookup_def (st_defs s) p)) v u))).
 Proof.
   unfold do_schedule, r_schedule. change (rs_shut (abs s)) with (st_shut s). change (rs_defs (abs s)) with (st_defs s).
   destruct (st_shut s); [done|].
@@ -108,18 +116,18 @@ Proof.
   change (default zero_def (Some d)) with d.
   rewrite <- abs_resolve.
   assert (Hlen : length (rs_jobs (abs s)) = length (st_jobs s)) by (simpl; by rewrite map_length).
-  assert (Hnj : abs_job (new_job s p d v u) = r_new_job (abs s) p d (graph_ok (new_job s p d v u))) by done.
+  assert (Hnj : abs_job (new_job s p d v u) = r_new_job (abs s) p d (graph_ok (new_job s p d v u)) (r_snap (abs_job (new_job s p d v u)))) by done.
   destruct (resolve_action s p false) eqn:Hact; cbn [fst snd]; try done.
   - rewrite abs_start_job, abs_log, abs_req, abs_append, Hnj, Hlen. done.
   - rewrite abs_set_wait, abs_log, abs_req, abs_append, Hnj, Hlen. done.
-  - change (rs_wait (r_set_jobs (abs s) (rs_jobs (abs s) ++ [r_new_job (abs s) p d (graph_ok (new_job s p d v u))])))
+  - change (rs_wait (r_set_jobs (abs s) (rs_jobs (abs s) ++ [r_new_job (abs s) p d (graph_ok (new_job s p d v u)) (r_snap (abs_job (new_job s p d v u)))])))
       with (st_wait s).
     change (st_wait (log (request_persist (set_jobs s (st_jobs s ++ [new_job s p d v u]))) (OAccepted (length (st_jobs s)) p)))
       with (st_wait s).
     destruct (last (wl_get (st_wait s) p)) as [prev|]; cbn [fst snd].
     + rewrite abs_log, abs_set_wait.
       rewrite (abs_upd _ prev set_canceled_notimer r_cancel_notimer).
-      2:{ intros j0. unfold abs_job, set_canceled_notimer, r_cancel_notimer. simpl. f_equal; by apply graph_ok_ext. }
+      2:{ intros j0. unfold set_canceled_notimer, r_cancel_notimer. absjob. }
       rewrite abs_log, abs_req, abs_append, Hnj, Hlen. done.
     + rewrite abs_log, abs_req, abs_append, Hnj, Hlen. done.
 Qed.
@@ -131,12 +139,11 @@ Proof.
   destruct (find_job s id) as [j|]; simpl; [|done].
   destruct (j_canceled j); [done|]. destruct (j_completed j); [done|].
   destruct (j_start j); simpl.
-  - destruct (j_sched j); simpl; [|done]. f_equal. erewrite abs_upd; [done|].
-    intros j0. unfold abs_job, add_cancel, r_set_creq. simpl. f_equal; first [by apply graph_ok_ext|by rewrite orb_true_r].
+  - destruct (j_sched j); simpl; [|done]. f_equal. rewrite (abs_upd _ id (add_cancel true) r_set_creq); [done|].
+    intros j0. unfold add_cancel, r_set_creq. absjob.
   - rewrite abs_req, abs_dequeue, abs_log, abs_set_wait. f_equal. f_equal. f_equal.
-    erewrite abs_upd; [done|].
-    intros j0. unfold abs_job, mark_canceled, r_cancel_notimer. simpl. f_equal.
-    all: try (apply graph_ok_ext; [done|]; simpl; rewrite map_map; done).
+    rewrite (abs_upd _ id mark_canceled r_cancel_notimer); [done|].
+    intros j0. unfold mark_canceled, r_cancel_notimer. absjob.
 Qed.
 
 (** fail-fast cancel of a job whose scheduler is alive does not change the abstraction *)
@@ -149,7 +156,7 @@ Proof.
   assert (Hl : r_live (abs_job j) = true) by (simpl; by rewrite Hsc).
   destruct (inv_live _ _ Hinv id (abs_job j)) as ([t Ht] & Hcomp & Hcan); [by rewrite abs_lookup, Hj|done|].
   simpl in Ht, Hcomp, Hcan. rewrite Hcan, Hcomp, Ht, Hsc. simpl.
-  apply abs_upd_same. intros j0. unfold abs_job, add_cancel. simpl. f_equal; first [by apply graph_ok_ext|by rewrite orb_false_r].
+  apply abs_upd_same. intros j0. unfold add_cancel. absjob.
 Qed.
 
 Lemma abs_fire s id :
@@ -160,7 +167,7 @@ Proof.
   change (r_timer_due (abs s) (abs_job j)) with (timer_due s j).
   destruct (timer_due s j); [|done].
   assert (Hct : ∀ j0, abs_job (clear_timer j0) = r_clear_timer (abs_job j0)).
-  { intros j0. unfold abs_job, clear_timer, r_clear_timer. simpl. f_equal; by apply graph_ok_ext. }
+  { intros j0. unfold clear_timer, r_clear_timer. absjob. }
   destruct (find_job s id) as [j'|]; simpl.
   - destruct (j_canceled j); simpl.
     + f_equal. by apply abs_upd.
@@ -180,7 +187,7 @@ Proof.
   unfold r_complete. rewrite abs_lookup, Hj. simpl. rewrite Hsc.
   assert (Hc : ∀ j0, abs_job (complete (st_now s) (sc_lasterr sc) j0)
                      = r_complete_job (rs_now (abs s)) (bool_decide (sc_lasterr sc = Some ECanceled)) (abs_job j0)).
-  { intros j0. unfold abs_job, complete, r_complete_job. simpl. f_equal; by apply graph_ok_ext. }
+  { intros j0. unfold complete, r_complete_job. absjob. }
   destruct (j_removed j); injection H as <-; f_equal.
   - symmetry. by apply abs_upd.
   - rewrite abs_req, abs_dequeue, abs_log. f_equal. symmetry. by apply abs_upd.
@@ -210,9 +217,11 @@ Qed.
 Lemma abs_job_upd_task j n f :
   (∀ t, jt_name (f t) = jt_name t ∧ jt_def (f t) = jt_def t) → abs_job (upd_task j n f) = abs_job j.
 Proof.
-  intros Hf. unfold abs_job. simpl. f_equal. apply graph_ok_ext; [done|]. simpl.
-  rewrite map_map. apply map_ext. intros t. destruct (jt_name t =? n)%nat; [|done].
-  destruct (Hf t) as [-> ->]. done.
+  intros Hf.
+  assert (Hg : job_graph (upd_task j n f) = job_graph j).
+  { unfold job_graph. simpl. rewrite map_map. apply map_ext. intros t. destruct (jt_name t =? n)%nat; [|done].
+    destruct (Hf t) as [-> ->]. done. }
+  unfold abs_job. simpl. f_equal; [|by rewrite Hg]. by apply graph_ok_ext.
 Qed.
 
 Lemma abs_handle_stage_change s id n st : abs (handle_stage_change s id n st) = abs s.
@@ -312,7 +321,7 @@ Proof.
   destruct (j_cancels j) as [|k]; [done|].
   match goal with |- context [upd_job s id ?f] => set (dec := f) end.
   assert (H1 : abs (upd_job s id dec) = abs s).
-  { apply abs_upd_same. intros j0. unfold abs_job, dec. simpl. f_equal; by apply graph_ok_ext. }
+  { apply abs_upd_same. intros j0. unfold dec. absjob. }
   destruct (j_sched j) as [sc|] eqn:Hsc; intros [= <-]; [|done].
   rewrite abs_log, abs_put_sched; [done|]. eapply live_abs; [exact H1|]. by exists j, sc.
 Qed.
@@ -320,18 +329,19 @@ Qed.
 (** ** the refinement theorem *)
 Theorem refine_step s e s' r :
   RInv (abs s) → step s e = Some (s', r) →
-  (abs s' = abs s ∧ r = RNone) ∨ ∃ re, rstep (abs s) re = Some (abs s', r).
+  (abs s' = abs s ∧ r = RNone) ∨ ∃ re, rstep (abs s) re = Some (abs s', r) ∧ (∀ ds, re = RvReload ds → e = EvReload ds).
 Proof.
   intros Hinv. unfold step.
   assert (Hinv' : RInv (abs (clear_req s))) by done.
   destruct e as [p v u|id|d|id|ds|id|id n|id n|id n o|id|id]; simpl.
-  - intros [= Heq]. right. exists (RvSchedule p (graph_ok (new_job (clear_req s) p (default zero_def (lookup_def (st_defs s) p)) v u))).
-    simpl. rewrite <- (abs_schedule (clear_req s)). simpl. by rewrite Heq.
-  - intros [= Heq]. right. exists (RvCancel id). simpl. rewrite <- (abs_cancel_request (clear_req s)). by rewrite Heq.
+  - intros [= Heq]. right. exists (RvSchedule p (graph_ok (new_job (clear_req s) p (default zero_def (lookup_def (st_defs s) p)) v u))
+                       (r_snap (abs_job (new_job (clear_req s) p (default zero_def (lookup_def (st_defs s) p)) v u)))).
+    split; [|done]. simpl. rewrite <- (abs_schedule (clear_req s)). simpl. by rewrite Heq.
+  - intros [= Heq]. right. exists (RvCancel id). split; [|done]. simpl. rewrite <- (abs_cancel_request (clear_req s)). by rewrite Heq.
   - intros [= <- <-]. right. by exists (RvTick d).
   - destruct (do_fire_timer (clear_req s) id) as [s1|] eqn:Hf; simpl; [|done]. intros [= <- <-].
-    right. exists (RvFire id). simpl. rewrite <- (abs_fire (clear_req s)). by rewrite Hf.
-  - intros [= <- <-]. right. by exists (RvReload ds).
+    right. exists (RvFire id). split; [|done]. simpl. rewrite <- (abs_fire (clear_req s)). by rewrite Hf.
+  - intros [= <- <-]. right. exists (RvReload ds). split; [done|]. by intros ds' [= ->].
   - destruct (do_iter_begin (clear_req s) id) as [s1|] eqn:Hf; simpl; [|done]. intros [= <- <-].
     left. split; [|done]. by rewrite (abs_iter_begin _ _ _ Hf).
   - destruct (do_visit (clear_req s) id n) as [s1|] eqn:Hf; simpl; [|done]. intros [= <- <-].
@@ -343,14 +353,14 @@ Proof.
   - destruct (do_cancel_deliver (clear_req s) id) as [s1|] eqn:Hf; simpl; [|done]. intros [= <- <-].
     left. split; [|done]. by rewrite (abs_cancel_deliver _ _ _ Hf).
   - destruct (do_sched_return (clear_req s) id) as [s1|] eqn:Hf; simpl; [|done]. intros [= <- <-].
-    right. destruct (abs_sched_return _ _ _ Hf) as [ec Hec]. exists (RvComplete id ec). simpl.
+    right. destruct (abs_sched_return _ _ _ Hf) as [ec Hec]. exists (RvComplete id ec). split; [|done]. simpl.
     change (abs (clear_req s)) with (abs s) in Hec. by rewrite Hec.
 Qed.
 
 Theorem reach_refines s : reach s → rreach (abs s).
 Proof.
   induction 1 as [ds|s e s' r Hr IH Hs]; [apply rreach_init|].
-  destruct (refine_step s e s' r (rreach_inv _ IH) Hs) as [[-> _]|[re Hre]]; [done|].
+  destruct (refine_step s e s' r (rreach_inv _ IH) Hs) as [[-> _]|[re [Hre _]]]; [done|].
   by eapply rreach_step.
 Qed.
 
